@@ -82,6 +82,16 @@ def agrees (pinned gen : Table) : Bool :=
 /-- entries of `a` that `b` lacks (for reporting a disagreement). -/
 def lacking (a b : Table) : Table := a.filter fun p => !memPair p b
 
+/-- the keys are `start, start+1, start+2, …` in this order (numbering scheme of the tag table). -/
+def consecutiveKeys : Nat → Table → Bool
+  | _, [] => true
+  | k, (a, _) :: t => a == k && consecutiveKeys (k + 1) t
+
+/-- `o = some v`, as a Boolean. -/
+def optIs (o : Option Nat) (v : Nat) : Bool := match o with
+  | some x => x == v
+  | none => false
+
 /-! ### indexes of enumerations and masks -/
 
 abbrev EnumIndex := List (Nat × Table × Table)
